@@ -53,14 +53,15 @@ def directCalls (ch : List Item) (flush : Bool) : List (Nat × List TEv × List 
     | _ => none
 
 /-- the watchers that must be invoked directly for a non-batched assignment, in order -/
-def expectedDirect (ws : List Watcher) (regs : List Nat) (tr : Bool) (ev : Ev) : List Watcher :=
-  (sortByPrec (regs.filterMap (findW ws))).filter (fun w => passes tr w ev)
+def expectedDirect (ws : List Watcher) (regs : List (Nat × Nat)) (tr : Bool) (ev : Ev) : List Watcher :=
+  (sortByPrec (regs.filterMap (fun k => findW ws k.1))).filter (fun w => passes tr w ev)
 
 /-- a qualifying-assignment record harvested from a batch body -/
 structure Rec where
   ev : Ev
   tr : Bool
-  regs : List Nat
+  /-- (statement id, object identity) of the watchers registered for the assigned parameter -/
+  regs : List (Nat × Nat)
 
 def bodyHasAssign : Nat → List Stmt → Bool
   | 0, _ => true
@@ -111,14 +112,17 @@ def hasKind : Nat → String → List Item → Bool
 
 /-- did the assignment raise an event for (a registration of) this watcher's callback -/
 def qualifies (ws : List Watcher) (r : Rec) (w : Watcher) : Bool :=
-  r.ev.what == w.what && (r.regs.filterMap (findW ws)).any (fun x => x.cb = w.cb) && passes r.tr w r.ev
+  r.ev.what == w.what && (r.regs.filterMap (fun k => findW ws k.1)).any (fun x => x.cb = w.cb) && passes r.tr w r.ev
 
 /-- C04: the first flush round after a batch whose body produced `recs` -/
 def checkFlushRound (ws : List Watcher) (recs : List Rec) (calls : List (Nat × List TEv × List Int)) :
     Option String :=
-  let expectedIds := (recs.flatMap fun r => (r.regs.filterMap (findW ws)).filter (qualifies ws r)).map (·.id)
-  let expSet := expectedIds.eraseDups
-  let expCbs := (expSet.filterMap (findW ws)).map (·.cb)
+  -- the Watcher *objects* (a `watch` statement in a callback body makes a new one each time it runs) with
+  -- a qualifying event, each once
+  let expectedKeys := recs.flatMap fun r => r.regs.filter fun k =>
+    match findW ws k.1 with | some w => qualifies ws r w | none => false
+  let expSet := expectedKeys.eraseDups
+  let expCbs := (expSet.filterMap (fun k => findW ws k.1)).map (·.cb)
   let k := expSet.length
   let round := calls.take k
   let ids := round.map (·.1)
@@ -146,7 +150,7 @@ def checkFlushRound (ws : List Watcher) (recs : List Rec) (calls : List (Nat × 
             -- the most recent assignment of that parameter that raised an event for somebody (an
             -- assignment inside `discard_events`, or a same-value one nobody listens to, raises none)
             match (recs.filter (fun r => r.ev.name = e.name && r.ev.what == e.what &&
-                    (r.regs.filterMap (findW ws)).any (qualifies ws r))).getLast? with
+                    (r.regs.filterMap (fun k => findW ws k.1)).any (qualifies ws r))).getLast? with
             | some r => if e.new != r.ev.new then some s!"flush: event for {e.name} does not carry the final value" else none
             | none => some "flush: event without assignment"
 
@@ -171,7 +175,7 @@ def checkNodes (prop : String) (c : Cfg) (ws : List Watcher) (top : Bool) : Nat 
           let ev : Ev := { name := p, old := old, new := new, what := (slotOf kind).getD 0 }
           -- value watchers: ascending precedence then registration; attribute watchers: registration order
           let exp := if kind == "set" then expectedDirect ws regs tr ev
-                     else (regs.filterMap (findW ws)).filter (fun w => passes tr w ev)
+                     else (regs.filterMap (fun k => findW ws k.1)).filter (fun w => passes tr w ev)
           let got := directCalls ch false
           if got.map (·.1) != exp.map (·.cb) then
             some s!"{kind} p{p} {old}->{new}: watchers invoked {got.map (·.1)}, expected exactly once each, in order, {exp.map (·.cb)}"
